@@ -18,6 +18,7 @@ import (
 	"github.com/hashicorp/go-plugin/internal/plugin"
 	"github.com/hashicorp/go-plugin/runner"
 
+	"github.com/hashicorp/go-plugin/verifhook"
 	"github.com/oklog/run"
 	"google.golang.org/grpc"
 	"google.golang.org/grpc/credentials"
@@ -317,6 +318,7 @@ func (b *GRPCBroker) Accept(id uint32) (net.Listener, error) {
 			}
 		}()
 
+		verifhook.Point("grpcbroker.accept.mux.beforeListener")
 		ln, err := b.muxer.Listener(id, p.doneCh)
 		if err != nil {
 			return nil, err
@@ -349,6 +351,7 @@ func (b *GRPCBroker) Accept(id uint32) (net.Listener, error) {
 		return nil, err
 	}
 
+	verifhook.Point("grpcbroker.accept.listening")
 	advertiseNet := listener.Addr().Network()
 	advertiseAddr := listener.Addr().String()
 	if b.addrTranslator != nil {
@@ -366,6 +369,7 @@ func (b *GRPCBroker) Accept(id uint32) (net.Listener, error) {
 		return nil, err
 	}
 
+	verifhook.Point("grpcbroker.accept.sent")
 	return listener, nil
 }
 
@@ -435,6 +439,7 @@ func (b *GRPCBroker) listenForKnocks(id uint32) error {
 	for {
 		select {
 		case msg := <-p.ch:
+			verifhook.Point("grpcbroker.knock.received")
 			// Shouldn't be possible.
 			if msg.ServiceId != id {
 				return fmt.Errorf("knock received with wrong service ID; expected %d but got %d", id, msg.ServiceId)
@@ -542,6 +547,7 @@ func (b *GRPCBroker) DialWithOptions(id uint32, opts ...grpc.DialOption) (conn *
 		return nil, fmt.Errorf("timeout waiting for connection info")
 	}
 
+	verifhook.Point("grpcbroker.dial.gotinfo")
 	network, address := c.Network, c.Address
 	if b.addrTranslator != nil {
 		network, address, err = b.addrTranslator.PluginToHost(network, address)
